@@ -26,4 +26,60 @@ PROPS = {
         "assumptions": ["LoopIR ADT as declared in src/exo/core/LoopIR.py", "paths are enumerated syntactically; conditions other than constructor tests are explored both ways"],
         "design_ref": "DESIGN.md §3.2, §4 C09",
     },
+    "C17": {
+        "rules": ["FRESHNAME", "PREC", "FIELDS", "EXH"],
+        "thorough": [],
+        "technique": "static analysis: fresh-name registry rule, precedence-table embedding, per-constructor field coverage of the printer",
+        "level_text": "Structural clauses only: (1) the name disambiguator records every identifier it issues (distinct Syms never share a printed "
+        "name), (2) the printer's precedence table is a monotone embedding of Python's and operands are parenthesised by the left-assoc rule, "
+        "(3) every semantic field of every LoopIR constructor is read by its printing case, (4) the printing dispatch is exhaustive. "
+        "Does not decide the print->parse->print fixpoint.",
+        "level_note": "Trusted: reference Python operator order kept in the checker; ADT text. Not decided: that the parser accepts the text and rebuilds the same tree.",
+        "explanation": "FRESHNAME: `while cand in R` searches must store the issued candidate in R. PREC: op_prec vs. reference order; recursive calls on "
+        "lhs/rhs/arg carry level, level+1, unary; parenthesise iff level < context. PRINTFIELDS: per constructor case, every non-annotation ADT field is read. EXH on the four printer dispatches.",
+        "assumptions": ["Python operator precedence as listed in rules/names.py REF_PY"],
+        "design_ref": "DESIGN.md §3.14 FRESHNAME/PREC, §3.21, §4 C17",
+    },
+    "C02": {
+        "rules": ["EXH", "PREC", "DIVMOD", "FRESHNAME", "SCALARREF", "WINDOWHOOK", "BACKPIPE"],
+        "thorough": [],
+        "technique": "static analysis: exhaustive-lowering, C-precedence table embedding, sign-proof dominance for / and %, sibling agreement on by-reference scalars, window-hook call rule",
+        "level_text": "Structural clauses of code generation, decided for all programs from the source: lowering dispatches are exhaustive; the C "
+        "precedence table is a monotone embedding of C's and operands are parenthesised by the left-assoc rule; floor-semantics '/' and '%' reach C's truncating "
+        "operators only behind a sign proof or through the floor helper; fresh C identifiers are registered; by-reference scalars are "
+        "dereferenced consistently at the three sites that print them; window data pointers go through the memory's hook. Does not decide index "
+        "linearisation arithmetic, casts or window-struct contents.",
+        "level_note": "Trusted: reference C operator order in rules/names.py REF_C; ADT text. Arithmetic of strides/offsets not decided.",
+        "explanation": "EXH on comp_s/comp_e/comp_cir/lift_to_cir/simplify_cir/coerce_e; PREC on op_prec + comp_e/comp_cir; DIVMOD: per operator in {/,%} the BinOp case must "
+        "test the operator and reach C text only under a non-negativity proof or via _call_static_helper; FRESHNAME on new_varname; SCALARREF; WINDOWHOOK; BACKPIPE (precision/window/memory passes precede Compiler).",
+        "assumptions": ["C operator precedence as listed in rules/names.py REF_C"],
+        "design_ref": "DESIGN.md §3.14, §4 C02",
+    },
+    "C15": {
+        "rules": ["BACKPIPE", "TRAV@C15", "TRAVBASE", "MEMGATE", "CALLBOUNDARY", "TYPETABLES", "EXH", "FRESHNAME"],
+        "thorough": [],
+        "technique": "static analysis: pipeline def-use chain, traversal completeness of the global collectors, gate-dominance and call-boundary checks, type-table agreement",
+        "level_text": "Structural clauses: every compiled procedure (transitively) passes Parallel/Precision/Window/Memory analysis in that order before "
+        "Compiler; the collectors of externs/memories/configs/sub-procedures visit every node that can hold what they collect (so every referenced global is "
+        "emitted); direct reads are emitted only behind can_read(), writes/reduces only through the memory's hooks; call boundaries compare precision, memory "
+        "and window-ness and raise; type tables agree with the ADT. Does not decide that gcc accepts the text in general.",
+        "level_note": "Trusted: ADT text; naming of the four backend passes. Not decided: C validity beyond the listed clauses.",
+        "explanation": "BACKPIPE chain through compile_to_strings; TRAV on LoopIR_SubProcs/FindMems/FindExterns/FindConfigs/PrecisionAnalysis/WindowAnalysis; MEMGATE via must-dominance of a raising "
+        "can_read guard over access_str; CALLBOUNDARY structural checks of the three call cases; TYPETABLES compares ctype/window shorthand/config ctyp/_typ_table with ADT constructors.",
+        "assumptions": ["LoopIR ADT as declared"],
+        "design_ref": "DESIGN.md §3.14, §4 C15",
+    },
+    "C08": {
+        "rules": ["WINALIAS@live", "FREEONCE", "MEMPAIR", "CONSTQ", "DIVMOD", "EXH", "BACKPIPE"],
+        "thorough": [],
+        "technique": "static analysis: alias-closure of liveness, typestate on the pending-free list, allocator/deallocator pairing per Memory class (MRO-resolved), const-from-write-analysis",
+        "level_text": "Structural clauses: buffer liveness is closed under window aliasing (no free before a use through a window); each allocation registers one "
+        "pending free, emitted after the last using statement and removed at emission, with scope exit asserting emptiness and every nested block bracketed by push/pop; "
+        "every Memory class pairs its allocator with the matching deallocator and agrees on the scalar case; const is derived only from the alias-closed write "
+        "analysis; no truncating / or % on possibly negative numerators. Does not decide signed overflow or malloc sizes.",
+        "level_note": "Trusted: allocator/deallocator pairing table in rules/memory.py; ADT text.",
+        "explanation": "WINALIAS(liveness): names entering the used-list must pass an alias resolver; FREEONCE: structural typestate of tofree; MEMPAIR: tokens in alloc/free return strings per class; CONSTQ; DIVMOD.",
+        "assumptions": ["pairing table malloc/free, malloc_dram/free_dram, gemm_malloc/gemm_free, gemm_acc_malloc/gemm_acc_free, #define/#undef"],
+        "design_ref": "DESIGN.md §3.9, §3.14, §4 C08",
+    },
 }
